@@ -43,6 +43,7 @@ def shards(tier, seed):
             out.append(dict(name="w%d/%d" % (w, p), w=w, part=p, parts=parts, weight=7 ** w // parts))
     for w in ((6, 10, 16) if tier == "quick" else (6, 7, 10, 13, 16, 20, 30)):
         out.append(dict(name="long/w%d" % w, w=w, long=True, weight=4 ** min(w, 7)))
+    out.append(dict(name="bin_edges", bin_edges=True, w=0, weight=300))
     out.append(dict(name="fimo_history", fimo_history=True, w=0, weight=800))
     out.append(dict(name="fimo_lookup/many_motifs", fimo_lookup="many", w=0, numba_threads=4, weight=2500))
     out.append(dict(name="fimo_lookup/planted", fimo_lookup="planted", w=0, numba_threads=4, weight=1500))
@@ -59,9 +60,10 @@ def build_pwm(cols, rot=True):
     return pw
 
 
-def check_table(rec, case, pwm, bin_size, eps, brute):
+def check_table(rec, case, pwm, bin_size, eps, brute, log_pwm=None):
     from tangermeme.tools.fimo import _pwm_to_mapping
-    log_pwm = numpy.log2(pwm + eps) - math.log2(0.25)
+    if log_pwm is None:
+        log_pwm = numpy.log2(pwm + eps) - math.log2(0.25)
     st, val = call(_pwm_to_mapping, log_pwm, bin_size)
     if st != "ok":
         rec.violation("_pwm_to_mapping:raises", case, observed=val)
@@ -107,6 +109,38 @@ def check_table(rec, case, pwm, bin_size, eps, brute):
     return len(cnt)
 
 
+def run_bin_edges(rec, tier, seed):
+    """Log-odds that lie EXACTLY on a bin edge (an odd multiple of half a bin): the discretised score is numpy's round-half-to-even of
+    score / bin_size, and the table must be the tail distribution of that."""
+    vals = [-2.5, -1.5, -0.5, 0.5, 1.5, 2.5, 3.5, 0.0, 1.0, -1.0, 0.25, -0.75]
+    n = 0
+    for bs in (1.0, 0.5, 0.25, 2.0):
+        for w in (1, 2, 3, 5):
+            for k in range(12):
+                # every entry an exact multiple of bs/2 (exactly representable): many of them are ties for the rounding
+                log_pwm = numpy.array([[vals[(i * 5 + j * 3 + k + (i * j) % 4) % len(vals)] * bs for j in range(w)] for i in range(4)], dtype=numpy.float64)
+                case = dict(fn="_pwm_to_mapping", cols="log-odds on bin edges", log_pwm=log_pwm.tolist(), bin_size=bs, eps=None)
+                rec.case(1, 1)
+                check_table(rec, case, numpy.zeros((4, w)), bs, 0.0, brute=w <= 3, log_pwm=log_pwm)
+                n += 1
+    # the same through a probability: log2((p + eps) / 0.25) == 0.5 exactly
+    for target in (0.5, 1.5, -0.5):
+        p0 = 0.25 * 2.0 ** target - 1e-4
+        cand = [p0]
+        for _ in range(6):
+            cand += [numpy.nextafter(cand[-1], 1.0)]
+        for _ in range(6):
+            cand += [numpy.nextafter(cand[0] if len(cand) == 7 else cand[-1], 0.0)]
+        hit = [p for p in cand if (numpy.log2(p + 1e-4) - math.log2(0.25)) == target]
+        rec.count("exact_edge_probabilities_found", len(hit))
+        for p in hit[:1]:
+            pw = numpy.array([[p, 0.25], [(1 - p) / 3, 0.25], [(1 - p) / 3, 0.25], [(1 - p) / 3, 0.25]])
+            case = dict(fn="_pwm_to_mapping", cols="probability with log-odds exactly %s" % target, p=float(p), bin_size=1.0, eps=1e-4)
+            rec.case(1, 1)
+            check_table(rec, case, pw, 1.0, 1e-4, brute=True)
+    rec.sample(dict(kind="bin_edges", matrices=n, bin_sizes=[1.0, 0.5, 0.25, 2.0], widths=[1, 2, 3, 5]))
+
+
 def run_shard(sh, tier, seed):
     rec = Recorder(PID, sh["name"])
     if sh.get("fimo_history"):
@@ -114,6 +148,9 @@ def run_shard(sh, tier, seed):
         # the same motif names (a table kept from an earlier call would show up as a wrong p-value)
         from mc.props import c12
         c12.run_history(rec, tier, seed)
+        return rec.result()
+    if sh.get("bin_edges"):
+        run_bin_edges(rec, tier, seed)
         return rec.result()
     if sh.get("fimo_lookup"):
         # the association score -> table entry as fimo() performs it: up to 300 motifs in one call (every hit must be looked up in its own
@@ -156,6 +193,14 @@ def replay(v):
         c12.run_history(rec, "quick", 0)
         hit = [x for x in rec.violations if x["sig"] == v["sig"]]
         return (not hit), "replayed the fimo call history: %d violations with signature %s" % (len(hit), v["sig"])
+    if "log_pwm" in c:
+        lp = numpy.array(c["log_pwm"], dtype=numpy.float64)
+        check_table(rec, dict(c), numpy.zeros_like(lp), c["bin_size"], 0.0, brute=lp.shape[1] <= 3, log_pwm=lp)
+        return (not rec.violations), "_pwm_to_mapping(log-odds on bin edges, bin_size=%s): %s" % (c["bin_size"], rec.violations[:1] or "table equals the exact tail distribution")
+    if "p" in c and "cols" in c and str(c["cols"]).startswith("probability"):
+        run_bin_edges(rec, "quick", 0)
+        hit = [x for x in rec.violations if x["sig"] == v["sig"]]
+        return (not hit), "re-ran the bin-edge family: %d violations with signature %s" % (len(hit), v["sig"])
     if "many motifs" in c.get("input", "") or "planted" in c.get("input", ""):
         from mc.props import c12
         if "many motifs" in c["input"]:
